@@ -31,7 +31,7 @@ def run_one(patch, prop, runs, extra=()):
         if p.returncode != 0:
             return 'patch-failed', p.stdout + p.stderr
         env = dict(os.environ, VERIF_REPO=d)
-        cmd = [os.path.join(VERIF, 'check'), prop, '--no-evidence', '--no-minimise'] + list(extra)
+        cmd = [os.path.join(VERIF, 'check'), prop, '--no-evidence', '--no-minimise', '--stop-first'] + list(extra)
         if runs:
             cmd += ['--runs', str(runs)]
         p = subprocess.run(cmd, capture_output=True, text=True, env=env, timeout=1800)
